@@ -147,7 +147,9 @@ pub struct TypeBuilder<F: Form = MetaForm, S = state::PathNotAssigned> {
     marker: PhantomData<fn() -> (F, S)>,
 }
 
-impl<F: Form, S> Default for TypeBuilder<F, S> {
+// Only the initial state can be created from nothing: a default `PathAssigned` builder would
+// allow building a type without a path.
+impl<F: Form> Default for TypeBuilder<F, state::PathNotAssigned> {
     fn default() -> Self {
         TypeBuilder {
             path: Default::default(),
@@ -387,7 +389,11 @@ pub struct FieldBuilder<
     marker: PhantomData<fn() -> (N, T)>,
 }
 
-impl<F: Form, N, T> Default for FieldBuilder<F, N, T> {
+// Only the initial state can be created from nothing: a default `NameAssigned` or `TypeAssigned`
+// builder would allow a field without a name among named fields, or a field without a type.
+impl<F: Form> Default
+    for FieldBuilder<F, field_state::NameNotAssigned, field_state::TypeNotAssigned>
+{
     fn default() -> Self {
         FieldBuilder {
             name: Default::default(),
